@@ -26,7 +26,7 @@ class Kit(object):
     """Probe functions handed to generated programs. Everything they log is made of ints,
     strs, bools and canonical forms - never identities or default reprs."""
 
-    NAMES = ("M", "C", "W", "R", "IT", "P", "L", "LO", "OBJ", "BOX", "SEQ", "MK")
+    NAMES = ("M", "C", "W", "R", "IT", "P", "L", "LO", "OBJ", "BOX", "SEQ", "MK", "KEYS")
 
     def __init__(self, sched=0, fuel=200000):
         self.sched = sched
@@ -148,6 +148,9 @@ class Kit(object):
 
     def SEQ(self, name, data):
         return OneShot(self, name, data)
+
+    def KEYS(self, name):
+        return KeyLog(self, name)
 
     def MK(self, kind, *a):
         return make_value(self, kind, *a)
@@ -290,6 +293,39 @@ class LogBox(object):
 
     def _canon(self):
         return ("LogBox", self._name, canon(self._data))
+
+
+class KeyLog(object):
+    """container that accepts ANY key (tuples holding slices, Ellipsis, ...) and logs it"""
+
+    def __init__(self, kit, name):
+        self._kit, self._name, self._items = kit, name, []
+
+    @staticmethod
+    def _k(k):
+        if isinstance(k, tuple):
+            return ("tuple", [KeyLog._k(x) for x in k])
+        if isinstance(k, slice):
+            return ("slice", canon(k.start), canon(k.stop), canon(k.step))
+        return canon(k)
+
+    def __getitem__(self, k):
+        self._kit.tick()
+        ck = self._k(k)
+        self._kit.log.append(("getkey", self._name, ck))
+        for kk, v in reversed(self._items):
+            if kk == ck:
+                return v
+        return 10
+
+    def __setitem__(self, k, v):
+        self._kit.tick()
+        ck = self._k(k)
+        self._kit.log.append(("setkey", self._name, ck, canon(v)))
+        self._items.append((ck, v))
+
+    def _canon(self):
+        return ("KeyLog", self._name, [(k, canon(v)) for k, v in self._items])
 
 
 # ---------------------------------------------------------------- operand zoo (C13)
